@@ -32,7 +32,7 @@ PROPS = {
         "rule": rt_rule("trace"),
         "assumptions": ROUNDTRIP_ASSUME,
         "jobs": {
-            "quick": [{"test": "TestC01", "shards": 6, "checks": 4200, "timeout": 600}],
+            "quick": [{"test": "TestC01", "shards": 8, "checks": 12000, "timeout": 900}],
             "thorough": [{"test": "TestC01", "shards": 16, "checks": 160000, "timeout": 3000}],
         },
     },
@@ -44,7 +44,7 @@ PROPS = {
         "rule": rt_rule("log"),
         "assumptions": ROUNDTRIP_ASSUME,
         "jobs": {
-            "quick": [{"test": "TestC02", "shards": 6, "checks": 4200, "timeout": 600}],
+            "quick": [{"test": "TestC02", "shards": 8, "checks": 12000, "timeout": 900}],
             "thorough": [{"test": "TestC02", "shards": 16, "checks": 160000, "timeout": 3000}],
         },
     },
@@ -56,7 +56,7 @@ PROPS = {
         "rule": rt_rule("metric"),
         "assumptions": ROUNDTRIP_ASSUME,
         "jobs": {
-            "quick": [{"test": "TestC03", "shards": 6, "checks": 4200, "timeout": 600}],
+            "quick": [{"test": "TestC03", "shards": 8, "checks": 12000, "timeout": 900}],
             "thorough": [{"test": "TestC03", "shards": 16, "checks": 160000, "timeout": 3000}],
         },
     },
@@ -78,7 +78,7 @@ PROPS.update({
         "rule": "rapid draws producer options and a 1-8 batch single-signal history (ramp and rich batches); NON-TRIVIAL = the observer saw a dictionary upgrade, overflow or reset, or a schema update after the first batch; DISTINCT = FNV-64 of (option set, per-batch signal/size bucket/new observer event kinds)",
         "assumptions": OPTION_ASSUME + ["single-signal histories (interleaving is C12/C15's domain)", "strings are valid UTF-8, timestamps <= 2^63-1, nesting <= 16"],
         "jobs": {
-            "quick": [{"test": "TestC04", "shards": 8, "checks": 2400, "timeout": 600}],
+            "quick": [{"test": "TestC04", "shards": 8, "checks": 3200, "timeout": 900}],
             "thorough": [{"test": "TestC04", "shards": 16, "checks": 48000, "timeout": 3000}],
         },
     },
@@ -90,7 +90,7 @@ PROPS.update({
         "rule": "two generators: (a) option x history cases of 1-5 hostile batches, NON-TRIVIAL = a batch introduced a new column or follows a refused batch; (b) giants = (family of 15, n in {65535,65536,65537,70000,131073}, 0-2 small batches before/after), all non-trivial; DISTINCT = FNV-64 of the option/shape vector resp. the giant parameters",
         "assumptions": OPTION_ASSUME + ["a panic anywhere below Producer.BatchArrowRecordsFrom*/Close is caught by recover in the harness adapter", "for exactly 65,536 parents either outcome (batch or error) is accepted"],
         "jobs": {
-            "quick": [{"test": "TestC08", "shards": 6, "checks": 2400, "timeout": 600}, {"test": "TestC08Giants", "shards": 4, "checks": 24, "timeout": 600}],
+            "quick": [{"test": "TestC08", "shards": 8, "checks": 6400, "timeout": 900}, {"test": "TestC08Giants", "shards": 4, "checks": 40, "timeout": 900}],
             "thorough": [{"test": "TestC08", "shards": 12, "checks": 60000, "timeout": 3000}, {"test": "TestC08Giants", "shards": 4, "checks": 400, "timeout": 3000}],
         },
     },
@@ -102,7 +102,7 @@ PROPS.update({
         "rule": "rapid draws options and a 1-10 batch history with signals interleaved on one producer; NON-TRIVIAL = a schema id was retired, a dictionary reset happened under an unchanged schema, or signals were interleaved; DISTINCT = FNV-64 of (options, per-batch signal/size/payload-count/new events)",
         "assumptions": OPTION_ASSUME + ["the independent reader is arrow-go's ipc.Reader (one per schema id) - the Arrow library itself is trusted", "batches the producer refuses emit nothing and consume no batch id"],
         "jobs": {
-            "quick": [{"test": "TestC12", "shards": 8, "checks": 2400, "timeout": 600}],
+            "quick": [{"test": "TestC12", "shards": 8, "checks": 4800, "timeout": 900}],
             "thorough": [{"test": "TestC12", "shards": 16, "checks": 48000, "timeout": 3000}],
         },
     },
@@ -126,7 +126,7 @@ PROPS.update({
         "rule": "rapid draws options and 1-8 batch interleaved-signal hostile histories, plus histories around a refused giant; NON-TRIVIAL = at least one schema update (record discarded and rebuilt) or a refused batch; DISTINCT = FNV-64 of (options, per-batch signal/size/new events) resp. giant parameters",
         "assumptions": OPTION_ASSUME + ["pdata's protobuf marshalling is order-preserving, so byte equality is the right comparison", "after a producer panic (C08's verdict) the allocator balance is not judged"],
         "jobs": {
-            "quick": [{"test": "TestC15", "shards": 6, "checks": 2400, "timeout": 600}, {"test": "TestC15Refused", "shards": 2, "checks": 12, "timeout": 600}],
+            "quick": [{"test": "TestC15", "shards": 8, "checks": 4800, "timeout": 900}, {"test": "TestC15Refused", "shards": 2, "checks": 16, "timeout": 900}],
             "thorough": [{"test": "TestC15", "shards": 14, "checks": 56000, "timeout": 3000}, {"test": "TestC15Refused", "shards": 2, "checks": 200, "timeout": 3000}],
         },
     },
@@ -145,7 +145,7 @@ PROPS.update({
             "single faults are exhaustive per session; sessions and combinations are sampled",
         ],
         "jobs": {
-            "quick": [{"test": "TestC07", "shards": 8, "checks": 48, "timeout": 900}],
+            "quick": [{"test": "TestC07", "shards": 12, "checks": 96, "timeout": 900}],
             "thorough": [{"test": "TestC07", "shards": 16, "checks": 1600, "timeout": 3300}],
         },
     },
@@ -161,7 +161,7 @@ PROPS.update({
             "in-use is what the consumer publishes on the supplied MeterProvider, observed at every Add",
         ],
         "jobs": {
-            "quick": [{"test": "TestC14", "shards": 8, "checks": 400, "timeout": 900}],
+            "quick": [{"test": "TestC14", "shards": 12, "checks": 720, "timeout": 900}],
             "thorough": [{"test": "TestC14", "shards": 16, "checks": 12000, "timeout": 3300}],
         },
     },
@@ -173,7 +173,7 @@ PROPS.update({
         "rule": "rapid draws 2-8 streams, each options x 1-5 batch interleaved-signal history (half of the groups share one option set); all cases NON-TRIVIAL (>=2 concurrent streams); DISTINCT = FNV-64 of the sorted (options, batches) vector",
         "assumptions": ["interleavings are whatever the Go scheduler produces on 16 cores; the race detector sees only executed paths", "no absence proof"],
         "jobs": {
-            "quick": [{"test": "TestC16", "shards": 8, "checks": 160, "timeout": 900, "race": True}],
+            "quick": [{"test": "TestC16", "shards": 10, "checks": 200, "timeout": 900, "race": True}],
             "thorough": [{"test": "TestC16", "shards": 16, "checks": 5600, "timeout": 3300, "race": True}],
         },
     },
@@ -200,7 +200,7 @@ PROPS.update({
         "rule": BP_RULE % "NON-TRIVIAL = a request was split across >=2 exports or >=2 requests were merged into one export",
         "assumptions": BP_ASSUME + ["metric.Metadata() is not part of the identity C05 enumerates and is not compared"],
         "jobs": {
-            "quick": [{"test": "TestC05", "shards": 8, "checks": 40000, "timeout": 600}],
+            "quick": [{"test": "TestC05", "shards": 10, "checks": 100000, "timeout": 600}],
             "thorough": [{"test": "TestC05", "shards": 16, "checks": 1600000, "timeout": 3000}, {"test": "TestC05", "shards": 2, "checks": 60000, "timeout": 3000, "race": True}],
         },
     },
@@ -212,7 +212,7 @@ PROPS.update({
         "rule": BP_RULE % "NON-TRIVIAL = a request carried by >=2 exports with mixed outcomes, or a context that ended while its request was partially exported",
         "assumptions": BP_ASSUME + ["'wrapping the export failure' is read as: wraps at least one failed carrying export, and no non-carrying one"],
         "jobs": {
-            "quick": [{"test": "TestC06", "shards": 8, "checks": 40000, "timeout": 600}],
+            "quick": [{"test": "TestC06", "shards": 10, "checks": 100000, "timeout": 600}],
             "thorough": [{"test": "TestC06", "shards": 16, "checks": 1600000, "timeout": 3000}],
         },
     },
@@ -224,7 +224,7 @@ PROPS.update({
         "rule": BP_RULE % "NON-TRIVIAL = a timer-triggered flush of a partial batch after a size-triggered flush",
         "assumptions": BP_ASSUME + ["deadline clauses are judged only with max_concurrency=0, auto-completing exports and no metadata keys"],
         "jobs": {
-            "quick": [{"test": "TestC09", "shards": 8, "checks": 40000, "timeout": 600}],
+            "quick": [{"test": "TestC09", "shards": 10, "checks": 100000, "timeout": 600}],
             "thorough": [{"test": "TestC09", "shards": 16, "checks": 1600000, "timeout": 3000}],
         },
     },
@@ -236,7 +236,7 @@ PROPS.update({
         "rule": BP_RULE % "NON-TRIVIAL = metadata keys configured and >=2 exports (bubble) / every stress run; stress evaluations are counted per case, label stress_rounds counts rounds",
         "assumptions": BP_ASSUME + ["absent and empty-list metadata are the same combination (client.Metadata.Get returns nil for both); [\"\"] is distinct"],
         "jobs": {
-            "quick": [{"test": "TestC10", "shards": 8, "checks": 40000, "timeout": 600}, {"test": "TestStressC10", "shards": 4, "checks": 120, "timeout": 600, "race": True}],
+            "quick": [{"test": "TestC10", "shards": 10, "checks": 100000, "timeout": 600}, {"test": "TestStressC10", "shards": 4, "checks": 160, "timeout": 600, "race": True}],
             "thorough": [{"test": "TestC10", "shards": 14, "checks": 1400000, "timeout": 3000}, {"test": "TestStressC10", "shards": 4, "checks": 6000, "timeout": 3000, "race": True}],
         },
     },
@@ -248,7 +248,7 @@ PROPS.update({
         "rule": BP_RULE % "NON-TRIVIAL = gated scenario with >=2 exports (bubble) / every stress run",
         "assumptions": BP_ASSUME + ["no claim of exhaustiveness over interleavings; deadlock = still blocked in the virtual instant after everything was released"],
         "jobs": {
-            "quick": [{"test": "TestC11", "shards": 6, "checks": 30000, "timeout": 600}, {"test": "TestC11", "shards": 2, "checks": 4000, "timeout": 600, "race": True}, {"test": "TestStressC11", "shards": 4, "checks": 60, "timeout": 600, "race": True}],
+            "quick": [{"test": "TestC11", "shards": 8, "checks": 80000, "timeout": 600}, {"test": "TestC11", "shards": 3, "checks": 9000, "timeout": 600, "race": True}, {"test": "TestStressC11", "shards": 4, "checks": 80, "timeout": 600, "race": True}],
             "thorough": [{"test": "TestC11", "shards": 10, "checks": 1000000, "timeout": 3000}, {"test": "TestC11", "shards": 4, "checks": 100000, "timeout": 3000, "race": True}, {"test": "TestStressC11", "shards": 4, "checks": 3000, "timeout": 3000, "race": True}],
         },
     },
@@ -260,7 +260,7 @@ PROPS.update({
         "rule": BP_RULE % "NON-TRIVIAL = a multi-context export with exactly two contributing requests, or with the odd context last",
         "assumptions": BP_ASSUME + ["spans come from go.opentelemetry.io/otel/sdk with an in-memory SpanRecorder passed through processor.Settings"],
         "jobs": {
-            "quick": [{"test": "TestC18", "shards": 8, "checks": 40000, "timeout": 600}],
+            "quick": [{"test": "TestC18", "shards": 10, "checks": 100000, "timeout": 600}],
             "thorough": [{"test": "TestC18", "shards": 16, "checks": 1600000, "timeout": 3000}],
         },
     },
@@ -279,7 +279,7 @@ PROPS.update({
             "the known finding list-mode-key-collision is excluded by construction (unlisted keys never have the byte length of a listed key; counted) and probed separately",
         ],
         "jobs": {
-            "quick": [{"test": "TestC17", "shards": 8, "checks": 40000, "timeout": 600}, {"test": "TestC17Bulk", "shards": 4, "checks": 16, "timeout": 600}],
+            "quick": [{"test": "TestC17", "shards": 10, "checks": 100000, "timeout": 600}, {"test": "TestC17Bulk", "shards": 6, "checks": 36, "timeout": 600}],
             "thorough": [{"test": "TestC17", "shards": 12, "checks": 1200000, "timeout": 3000}, {"test": "TestC17Bulk", "shards": 4, "checks": 1200, "timeout": 3000}],
         },
     },
